@@ -137,6 +137,28 @@ pub fn oracle(input: &str, st: &mut Stats) -> Verdict {
                 Ok(Err(io)) => vbail!("c11.write-err", "aisle::write returned {io}; input {input:?}"),
                 Err(p) => vbail!("c11.panic.write", "aisle::write panicked: {p}; input {input:?}"),
             }
+            // any `io::Write` may take only part of a buffer per call: the same bytes must arrive through a
+            // writer that accepts 1, 3 or 7 bytes at a time, and a sink that is too small must give an error
+            for chunk in [1usize, 3, 7] {
+                let mut w = ChunkWriter { out: vec![], chunk };
+                match guard(|| aisle::write(conf, &mut w)) {
+                    Ok(Ok(())) => {}
+                    Ok(Err(io)) => vbail!("c11.write-err", "aisle::write into a writer taking {chunk} bytes per call returned {io}; input {input:?}"),
+                    Err(p) => vbail!("c11.panic.write", "aisle::write panicked: {p}; input {input:?}"),
+                }
+                vensure!(
+                    w.out == buf,
+                    "c11.write-truncated",
+                    "aisle::write into a writer that takes {chunk} bytes per call delivered {:?}, into a Vec {:?}; input {input:?}",
+                    String::from_utf8_lossy(&w.out),
+                    String::from_utf8_lossy(&buf)
+                );
+            }
+            if buf.len() > 1 {
+                let mut small = vec![0u8; buf.len() - 1];
+                let r = guard(|| aisle::write(conf, &mut small[..]));
+                vensure!(matches!(r, Ok(Err(_))), "c11.write-truncated", "aisle::write into a sink one byte too small must fail, got {:?}; input {input:?}", r.map(|x| x.map_err(|e| e.to_string())));
+            }
             let written = String::from_utf8(buf).map_err(|_| Violation::new("c11.write-utf8", "written file is not UTF-8"))?;
             let re = match guard(|| aisle::parse(&written)) {
                 Ok(Ok(c)) => c,
@@ -332,4 +354,21 @@ pub fn run(tier: Tier) -> i32 {
 
 pub fn replay(_p: &str, j: &serde_json::Value) -> Verdict {
     oracle(&case_from::<Case>(j)?.pieces.concat(), &mut Stats::default())
+}
+
+/// an `io::Write` that accepts at most `chunk` bytes per call
+struct ChunkWriter {
+    out: Vec<u8>,
+    chunk: usize,
+}
+
+impl std::io::Write for ChunkWriter {
+    fn write(&mut self, buf: &[u8]) -> std::io::Result<usize> {
+        let n = buf.len().min(self.chunk);
+        self.out.extend_from_slice(&buf[..n]);
+        Ok(n)
+    }
+    fn flush(&mut self) -> std::io::Result<()> {
+        Ok(())
+    }
 }
